@@ -378,6 +378,13 @@ InvSameTermsBothLanguages ==
 InvPyReportsTotals == Done => ReqReportsTotals(cfg, outPy)
 InvOnlyAboveCutoff == Done => ReqOnlyAbove(cfg, outC) /\ ReqOnlyAbove(cfg, outPy)
 InvZeroT == Done => ReqZeroT(cfg, outC) /\ ReqZeroT(cfg, outPy)
+(* coverage: the requirement is a sum over the WHOLE index set (1..NQ) x selected bands - nothing in it depends *)
+(* on NQ; every q-point with a contributing mode appears in the compiled sum (ThermalCoverage.tla carries this     *)
+(* to meshes of thousands of q-points on the trace side)                                                         *)
+InvEveryQPointCovered ==
+  Done /\ outC.status = "ok" =>
+     \A j \in 1..Len(outC.rows) : outC.rows[j].t > 0 =>
+        {t.q : t \in outC.rows[j].Cv} = {m[1] : m \in Contributing(cfg)}
 InvTemperatures == Done => temps = ReqTemps(cfg)
 InvCounts == Done => ReqCounts(cfg, nmodes, nint)
 InvZeroPointAttribute == Done => ReqZpeAttr(cfg, zpe)
